@@ -11,7 +11,8 @@ CLAUSES = ["C04_Solves", "C04_SameObject", "C04_SameAsMatrixPDE", "C04_ExternalS
 
 def run(tier, seed):
     return opscheck.run_property(
-        "C04", tier, seed, design=opscheck.design_ops("C04", None), clauses_for=lambda cfg: CLAUSES, n_quick=16, n_thorough=160,
+        "C04", tier, seed, design=opscheck.design_ops("C04", None), clauses_for=lambda cfg: CLAUSES,
+        extra_configs=solvedrive.periodic_systematic(), n_quick=16, n_thorough=160,
         gen_kw=[{}, {"nmax": 2}], generator=solvedrive.gen_solve_config, observe=solvedrive.observe,
         rule="inverse formulation: for 9 grid classes x seeded spacings, coefficient fields, BC kinds (incl. periodic) "
              "and term sets {transient, -diffusion, central|upwind, linear source, constant source}, the target x* is "
